@@ -84,6 +84,11 @@ def fix_rules():
         Rule("R1", "$a . to_owned ( ) + arg + $b", "concat3 ( & strlit_chars ( $a ) , arg , & strlit_chars ( $b ) )", why="String concatenation -> concat3"),
         Rule("R1", "$x . is_empty ( )", "( $x . len ( ) == 0 )", why="is_empty -> len() == 0"),
         Rule("R9", "$x . contains ( | $$p | $$e )", "arbitrary_bool ( )", why="str::contains(closure): predicate abstracted to an arbitrary result (over-approximation)"),
+        Rule("R9", "$x . bytes ( ) . any ( | $$p | $$e )", "arbitrary_bool ( )", why="a test on the bytes of the argument: abstracted to an arbitrary result (over-approximation)"),
+        Rule("R9", "$x . chars ( ) . any ( | $$p | $$e )", "arbitrary_bool ( )", why="a test on the characters of the argument: abstracted to an arbitrary result (over-approximation)"),
+        Rule("R9", "$x . as_bytes ( ) . iter ( ) . any ( | $$p | $$e )", "arbitrary_bool ( )", why="a test on the bytes of the argument: abstracted to an arbitrary result (over-approximation)"),
+        Rule("R9", "$x . bytes ( ) . all ( | $$p | $$e )", "arbitrary_bool ( )", why="a test on the bytes of the argument: abstracted to an arbitrary result (over-approximation)"),
+        Rule("R9", "$x . chars ( ) . all ( | $$p | $$e )", "arbitrary_bool ( )", why="a test on the characters of the argument: abstracted to an arbitrary result (over-approximation)"),
     ]
 
 
